@@ -216,8 +216,11 @@ def chkInv (P : Prob) (s : VState) : Bool :=
 def insAt (r : List Nat) (p c : Nat) : List Nat := r.take p ++ c :: r.drop p
 
 /-- Insert `c` on every route `v` listed in `vps`, at the listed position. -/
+def posOn (vps : List (Nat × Nat)) (v : Nat) : Option Nat :=
+  (vps.find? fun vp => vp.1 == v).map Prod.snd
+
 def insertAll (c : Nat) (vps : List (Nat × Nat)) (routes : List (List Nat)) : List (List Nat) :=
-  routes.mapIdx fun v r => match vps.lookup v with
+  routes.mapIdx fun v r => match posOn vps v with
     | some p => insAt r p c
     | none => r
 
@@ -253,8 +256,13 @@ def StepRel (P : Prob) : Step → VState → VState → Prop
 instance (P : Prob) (st : Step) (s s' : VState) : Decidable (StepRel P st s s') := by
   cases st <;> unfold StepRel <;> exact inferInstance
 
+/-- Same plan; `unassigned` is a set, so its order does not matter. -/
+def VState.Equiv (a b : VState) : Prop := a.routes = b.routes ∧ a.unassigned.Perm b.unassigned
+
+instance (a b : VState) : Decidable (a.Equiv b) := by unfold VState.Equiv; exact inferInstance
+
 inductive Run (P : Prob) : List Step → VState → VState → Prop
-  | nil (s) : Run P [] s s
+  | nil {s s'} : s.Equiv s' → Run P [] s s'
   | cons {st sts s s' s''} : StepRel P st s s' → Run P sts s' s'' → Run P (st :: sts) s s''
 
 /-- Canonical successor of a step (the one with `unassigned` in the model's order). -/
@@ -288,7 +296,7 @@ def insertPlan (pre post : VState) : List Step :=
 /-- Refinement checker for the repair operators: `post` is reached from `pre` by `insert` steps. -/
 def isInsertRun (P : Prob) (pre post : VState) : Bool :=
   match runPlan P (insertPlan pre post) pre with
-  | some s => decide (s.routes = post.routes) && decide (post.unassigned.Perm s.unassigned)
+  | some s => decide (s.Equiv post)
   | none => false
 
 /-! ### Arrival times and the objective -/
